@@ -287,10 +287,11 @@ class URLInfo(object):
             raise ValueError('Invalid IPv6 address: {}'
                              .format(ascii(hostname)))
 
-        hostname = ipaddress.IPv6Address(hostname[1:-1]).compressed
+        hostname = ipaddress.IPv6Address(hostname[1:-1]).compressed.lower()
+        forbidden_chars = FORBIDDEN_HOSTNAME_CHARS - frozenset(':%')
 
-        if any(char in hostname
-               for char in FORBIDDEN_HOSTNAME_CHARS - frozenset(':%')):
+        if any(char in forbidden_chars or not '!' <= char <= '~'
+               for char in hostname):
             # The zone ID after '%' is not validated by ipaddress
             raise ValueError('Invalid IPv6 address: {}'
                              .format(ascii(hostname)))
